@@ -43,6 +43,9 @@ def check(model: Model, rep: Report, tier: str):
     cg = CallGraph(model)
     with rep.isolated():
         share_rule(rep, model, lambda m, r: h1(m, r, cg, Effects(m, cg)), "C10.T3", "the schedule under a changed duration configuration is recomputed: every writer of a duration setting invalidates the memoised start times (= C03.H1)")
+    from .c01 import r15
+    with rep.isolated():
+        r15(model, rep, "C10.T7")
     from .common import instance_state_rule
     with rep.isolated():
         instance_state_rule(model, rep, "C10.T6", "a duration configuration belongs to its registry: the table of a duration registry is bound per instance, not a class-level "
